@@ -2250,12 +2250,18 @@ ws_conn_cb(void *arg)
 	}
 
 	ws->http = nni_aio_get_output(&ws->connaio, 0);
+	// The dialer's protocol string and header list are read below; they
+	// belong to the dialer (NNG_OPT_WS_PROTOCOL / NNG_OPT_WS_HEADER can be
+	// set while a dial is in progress), so hold its lock as well (order:
+	// dialer, then connection, as in ws_http_cb_dialer).
+	nni_mtx_lock(&d->mtx);
 	nni_mtx_lock(&ws->mtx);
 	uaio = ws->useraio;
 	nni_aio_set_output(&ws->connaio, 0, NULL);
 	if (uaio == NULL) {
 		// This request was canceled for some reason.
 		nni_mtx_unlock(&ws->mtx);
+		nni_mtx_unlock(&d->mtx);
 		ws_reap(ws);
 		return;
 	}
@@ -2294,11 +2300,13 @@ ws_conn_cb(void *arg)
 
 	nni_http_write_req(ws->http, &ws->httpaio);
 	nni_mtx_unlock(&ws->mtx);
+	nni_mtx_unlock(&d->mtx);
 	return;
 
 err:
 	nni_aio_finish_error(uaio, rv);
 	nni_mtx_unlock(&ws->mtx);
+	nni_mtx_unlock(&d->mtx);
 	ws_reap(ws);
 }
 
